@@ -109,11 +109,11 @@ def main():
     # ---- native cross-validation of the interpreter: re-run witness models of sequential harnesses as machine code
     nat_ok = 0; nat_bad = []
     cands = [h for h in hs if not h.get('threads') and results.get(h['name'], {}).get('verdict') == 'pass' and results[h['name']].get('native_inputs') is not None]
-    cands = cands[:(2 if tier == 'quick' else 4)]
+    cands = [h for h in cands if 'vf_thread_body' not in open(os.path.join(ROOT, 'harness', h['src'])).read()][:(1 if tier == 'quick' else 4)]
     nprocs = []
     for h in cands:
         nprocs.append((h, subprocess.Popen([sys.executable, os.path.join(ROOT, 'tools', 'native_validate.py'), os.path.join(wd, h['name'] + '.result.json'), os.path.join(wd, h['name'] + '.cfg.json')],
-                                           stdout=subprocess.PIPE, stderr=subprocess.STDOUT, text=True, env=dict(os.environ, VERIF_REPO=REPO))))
+                                           stdout=subprocess.PIPE, stderr=subprocess.STDOUT, text=True, env=dict(os.environ, VERIF_REPO=REPO, VERIF_TIER=tier))))
     for h, p in nprocs:
         try: o = p.communicate(timeout=300)[0].strip()
         except Exception: p.kill(); o = 'timeout'
@@ -166,7 +166,7 @@ def main():
             inconc.append('%s: %s %s' % (h['name'], v, str(r.get('reason') or [q for q in r.get('queries', []) if q.get('reason')])[:1500]))
         hsum.append(ent)
     wall = time.time() - t0
-    ev_native = dict(native_runs_agreeing=nat_ok, native_compilers=['clang++-14 -O1', 'g++ -O2'])
+    ev_native = dict(native_runs_agreeing=nat_ok, native_compilers=(['clang++-14 -O1', 'g++ -O2'] if tier == 'thorough' else ['g++ -O2']))
     ev = dict(property_id=pid, tier=tier, seed=seed, level=P.get('level', 'model_checking'), wall_s=round(wall, 1),
               violations=len(viol_lines),
               coverage=dict(states=max(states, 1), transitions=max(trans, 1), traces_validated_against_impl=wrep,
